@@ -490,7 +490,7 @@ Proof.
   assert (Sy : has_slash y = false).
   { unfold valid_name in Hy. apply andb_true_iff in Hy. destruct Hy as [_ Hy]. apply negb_true_iff. exact Hy. }
   rewrite split_aux_slash by exact Sx. rewrite split_aux_noslash by exact Sy. cbn [String.append].
-  rewrite Hx, Hx', Hy, Hy'. reflexivity.
+  rewrite Hx, Hx', Hy, Hy'. apply orb_true_r.
 Qed.
 
 Lemma staging_ok_one : forall x, valid_name x = true -> (x =? "") = false ->
@@ -501,7 +501,7 @@ Proof.
   rewrite strip_prefix_app. unfold split_slash.
   assert (Sx : has_slash x = false).
   { unfold valid_name in Hx. apply andb_true_iff in Hx. destruct Hx as [_ Hx]. apply negb_true_iff. exact Hx. }
-  rewrite split_aux_noslash by exact Sx. cbn [String.append]. rewrite Hx, Hx'. reflexivity.
+  rewrite split_aux_noslash by exact Sx. cbn [String.append]. rewrite Hx, Hx'. apply orb_true_r.
 Qed.
 
 Lemma hex_prefix2 : forall d, is_hex d = true -> (d =? "") = false ->
@@ -983,30 +983,33 @@ Qed.
 
 (* where no link is met, the chain of single-name opens and the kernel's own
    (link-following) resolution of the joined path agree *)
-Theorem resolve_follow_agrees : forall comps top pos t x,
+Theorem resolve_follow_agrees : forall comps fuel top pos t x,
+  List.length comps < fuel ->
   at_phys top pos = Some t ->
   walk_nofollow t comps = Some x ->
   (forall a tg, x <> NLink a tg) ->
   Forall (fun c => plain c = true) comps ->
-  resolve_follow (S (List.length comps)) top pos comps = Some (pos ++ comps)%list.
+  resolve_follow fuel top pos comps = Some (pos ++ comps)%list.
 Proof.
-  induction comps as [|c rest IH]; intros top pos t x Hp Hw Hx Hc.
-  - cbn. rewrite app_nil_r. reflexivity.
+  induction comps as [|c rest IH]; intros fuel top pos t x Hf Hp Hw Hx Hc.
+  - destruct fuel as [|fuel]; [cbn in Hf; lia|]. cbn. rewrite app_nil_r. reflexivity.
   - inversion Hc as [|? ? Hc1 Hc2]; subst.
     unfold plain in Hc1. apply andb_true_iff in Hc1. destruct Hc1 as [Hv He].
     unfold valid_name in Hv. apply andb_true_iff in Hv. destruct Hv as [Hv _].
     apply andb_true_iff in Hv. destruct Hv as [Hd Hdd].
     apply negb_true_iff in Hd. apply negb_true_iff in Hdd. apply negb_true_iff in He.
-    cbn [List.length]. cbn [resolve_follow]. rewrite Hdd, Hd, He. cbn [orb].
+    destruct fuel as [|fuel]; [cbn in Hf; lia|]. cbn [List.length] in Hf.
+    cbn [resolve_follow]. rewrite Hdd, Hd, He. cbn [orb].
     cbn [walk_nofollow] in Hw. destruct t as [cs| |]; try discriminate.
     rewrite (at_phys_app pos top (NDir cs) c Hp).
     destruct (child c cs) as [y|] eqn:Ey; [|discriminate].
     assert (Hy : at_phys top (pos ++ [c]) = Some y)
       by (rewrite (at_phys_app pos top (NDir cs) c Hp); exact Ey).
-    destruct y as [cs'| |]; cbn beta iota.
-    + rewrite (IH top (pos ++ [c])%list (NDir cs') x Hy Hw Hx Hc2).
+    destruct y as [cs'| |].
+    + rewrite (IH fuel top (pos ++ [c])%list (NDir cs') x ltac:(lia) Hy Hw Hx Hc2).
       rewrite <- app_assoc. reflexivity.
-    + destruct rest; [|discriminate]. cbn. rewrite app_nil_r. reflexivity.
+    + destruct rest; [|discriminate]. destruct fuel as [|fuel]; [cbn in Hf; lia|].
+      cbn. reflexivity.
     + destruct rest; [|discriminate]. injection Hw as <-. exfalso. eapply Hx. reflexivity.
 Qed.
 
@@ -1131,3 +1134,199 @@ Proof.
     + exists cs''. split; [|exact Hat']. cbn [walk_nofollow]. rewrite Hch. exact Hw.
 Qed.
 End TreeWorld.
+
+Section TreeTheorems.
+Variable root : string.
+Variable top : node.
+Variable rcs : list (string * node).
+(* the root is a directory of the tree (below its parent [top]) *)
+Hypothesis Hrootdir : at_phys top [root_base root] = Some (NDir rcs).
+Notation w := (tree_world root top).
+
+Lemma walk_from_top : forall parents x,
+  walk_nofollow (NDir rcs) parents = Some x ->
+  walk_nofollow top (root_base root :: parents) = Some x.
+Proof.
+  intros parents x H. cbn in Hrootdir. cbn [walk_nofollow].
+  destruct top as [tcs| |]; try discriminate.
+  destruct (child (root_base root) tcs) as [y|]; [|discriminate].
+  injection Hrootdir as ->. exact H.
+Qed.
+
+(* walkToParentAndComputeLeafName in the world of a tree: the directory
+   handed out is the one PHYSICALLY at root/parents, reached through real
+   directories only. *)
+Theorem walk_to_parent_tree : forall path v h leaf,
+  (path =? "") = false ->
+  Forall (fun c => plain c = true) (removelast (split_slash path)) ->
+  exec w (walk_to_parent root path v) = OkR (h, leaf) ->
+  leaf = last (split_slash path) ""
+  /\ phys root h = root_base root :: removelast (split_slash path)
+  /\ exists cs, walk_nofollow top (root_base root :: removelast (split_slash path)) = Some (NDir cs)
+                /\ at_phys top (phys root h) = Some (NDir cs).
+Proof.
+  intros path v h leaf Hne Hp H. unfold walk_to_parent in H. rewrite Hne in H.
+  cbn [exec tree_world] in H. rewrite String.eqb_refl, Hrootdir in H.
+  rewrite exec_bind in H.
+  pose proof (walk_loop_tree root top (removelast (split_slash path)) HRoot rcs Hrootdir Hp) as Hw.
+  destruct (exec w (walk_loop HRoot (removelast (split_slash path)))) as [h0|]; [|discriminate].
+  destruct Hw as (Hph & cs & Hwn & Hat).
+  assert (Hres : OkR (h0, last (split_slash path) "") = OkR (h, leaf) ->
+                 leaf = last (split_slash path) ""
+                 /\ phys root h = root_base root :: removelast (split_slash path)
+                 /\ exists cs, walk_nofollow top (root_base root :: removelast (split_slash path)) = Some (NDir cs)
+                               /\ at_phys top (phys root h) = Some (NDir cs)).
+  { intro E. injection E as <- <-. split; [reflexivity|]. split; [exact Hph|].
+    exists cs. split; [apply walk_from_top; exact Hwn|exact Hat]. }
+  destruct v.
+  - rewrite exec_bind in H.
+    destruct (exec w (name_exists h0 (last (split_slash path) ""))) as [[|]|]; try discriminate.
+    apply Hres. exact H.
+  - apply Hres. exact H.
+Qed.
+
+(* Operations whose path crosses a link inside the root fail: if any parent
+   component is physically a symbolic link, no directory is handed out. *)
+Theorem walk_to_parent_crossing_fails : forall path v pre suf a tg,
+  (path =? "") = false ->
+  Forall (fun c => plain c = true) (removelast (split_slash path)) ->
+  removelast (split_slash path) = (pre ++ suf)%list ->
+  at_phys top (root_base root :: pre) = Some (NLink a tg) ->
+  exec w (walk_to_parent root path v) = ErrR.
+Proof.
+  intros path v pre suf a tg Hne Hp Hsplit Hl.
+  destruct (exec w (walk_to_parent root path v)) as [[h leaf]|] eqn:E; [|reflexivity].
+  destruct (walk_to_parent_tree path v h leaf Hne Hp E) as (_ & _ & cs & Hw & _).
+  rewrite Hsplit in Hw. exfalso.
+  destruct suf as [|s suf].
+  - rewrite app_nil_r in Hw. apply walk_nofollow_at_phys in Hw. congruence.
+  - change (root_base root :: pre ++ s :: suf)%list with ((root_base root :: pre) ++ s :: suf)%list in Hw.
+    rewrite (walk_nofollow_crossing_fails (root_base root :: pre) (s :: suf) top a tg) in Hw;
+      [discriminate|discriminate|exact Hl].
+Qed.
+
+(* Opener.OpenFile (fresh opener) in the world of a tree: success means the
+   object opened is the regular file physically at root/path. *)
+Theorem opener_open_file_tree : forall path,
+  (path =? "") = false ->
+  Forall (fun c => plain c = true) (split_slash path) ->
+  snd (exec w (opener_open_file root new_opener path)) = OkR tt ->
+  at_phys top (root_base root :: split_slash path) = Some NFile
+  /\ exists cs, walk_nofollow top (root_base root :: removelast (split_slash path)) = Some (NDir cs).
+Proof.
+  intros path Hne Hp H. unfold opener_open_file in H. rewrite Hne in H.
+  cbn [o_root_open new_opener exec tree_world] in H. rewrite String.eqb_refl, Hrootdir in H.
+  cbn [o_names o_dirs new_opener] in H. rewrite exec_bind in H.
+  assert (Hsplit : split_slash path = (removelast (split_slash path) ++ [last (split_slash path) ""])%list).
+  { apply app_removelast_last. unfold split_slash. generalize EmptyString.
+    clear. induction path as [|c p IH]; intro cur; cbn; [discriminate|].
+    destruct (Ascii.eqb c slash); [discriminate|apply IH]. }
+  assert (Hpp : Forall (fun c => plain c = true) (removelast (split_slash path))
+                /\ plain (last (split_slash path) "") = true).
+  { rewrite Hsplit in Hp. apply Forall_app in Hp. destruct Hp as [A B]. split; [exact A|].
+    inversion B; assumption. }
+  destruct Hpp as [Hpar Hleaf].
+  pose proof (opener_walk_tree root top (removelast (split_slash path)) HRoot rcs [] [] Hrootdir Hpar) as Hw.
+  destruct (exec w (opener_walk HRoot (removelast (split_slash path)) [] [] [] [])) as [[r ns] ds].
+  cbn [fst] in Hw. destruct r as [parent|]; [|cbn in H; discriminate].
+  destruct Hw as (Hph & cs & Hwn & Hat).
+  cbn beta iota in H. rewrite exec_bind in H. cbn [exec snd] in H.
+  destruct (plain_facts _ Hleaf) as (Hv & _ & _).
+  unfold dir_open_file in H. rewrite Hv in H. cbn [exec tree_world] in H.
+  split.
+  - rewrite Hsplit.
+    change (root_base root :: removelast (split_slash path) ++ [last (split_slash path) ""])%list
+      with ((root_base root :: removelast (split_slash path)) ++ [last (split_slash path) ""])%list.
+    change (root_base root :: removelast (split_slash path)) with (phys root HRoot ++ removelast (split_slash path))%list.
+    rewrite <- Hph.
+    destruct (at_phys top (phys root parent ++ [last (split_slash path) ""])) as [[| |]|];
+      try discriminate. reflexivity.
+  - exists cs. apply walk_from_top. exact Hwn.
+Qed.
+End TreeTheorems.
+
+(* ================================================= the checker's soundness *)
+
+(* what check_C17 = true means *)
+Definition holds_C17 (root staging : string) (canary_intact : bool) (observed : list obs) : Prop :=
+  canary_intact = true
+  /\ Forall (fun pa => prim_ok root staging (fst pa) = true) (abstract root [] observed).
+
+Theorem check_C17_sound : forall root staging canary observed,
+  check_C17 root staging canary observed = true -> holds_C17 root staging canary observed.
+Proof.
+  intros root staging canary observed H. unfold check_C17 in H.
+  apply andb_true_iff in H. destruct H as [H1 H2]. split; [exact H1|].
+  apply Forall_forall. rewrite forallb_forall in H2. exact H2.
+Qed.
+
+(* the trace of a confined program passes the checker's predicate *)
+Theorem confined_run : forall root staging A (m : prog A) (wld : nat -> prim -> answer) i,
+  (forall j p, sane (wld j p) = true) ->
+  confined root staging m ->
+  Forall (fun pa => prim_ok root staging (fst pa) = true) (fst (run wld i m)).
+Proof.
+  intros root staging A m wld. induction m as [a|p k IH]; intros i Hs Hc; cbn.
+  - constructor.
+  - destruct Hc as [Hp Hk].
+    destruct (run wld (S i) (k (wld i p))) as [t r] eqn:E. cbn.
+    constructor; [exact Hp|].
+    specialize (IH (wld i p) (S i) Hs (Hk _ (Hs i p))). rewrite E in IH. exact IH.
+Qed.
+
+(* ===================================================== summary statements *)
+
+Section Summary.
+Variables root staging : string.
+Variable ownership : bool.
+Hypothesis Hroot : valid_name (root_base root) = true.
+
+Theorem confined_walk_to_parent : forall path v,
+  confined root staging (walk_to_parent root path v).
+Proof. intros. eapply cpost_confined. apply walk_to_parent_ok. exact Hroot. Qed.
+
+Theorem confined_opener : forall o paths, opener_ok root o ->
+  confined root staging (opener_open_files root o paths).
+Proof. intros. eapply cpost_confined. apply opener_open_files_ok; assumption. Qed.
+
+Theorem confined_scan : forall fuel, confined root staging (scan root fuel).
+Proof. intros. eapply cpost_confined. apply scan_ok. exact Hroot. Qed.
+
+Theorem confined_transition : forall links_ignored rnds cs, forallb change_ok cs = true ->
+  confined root staging (transition root staging ownership links_ignored rnds cs).
+Proof. intros. eapply cpost_confined. apply transition_ok; assumption. Qed.
+
+Theorem confined_stage_from_root : forall o src rnd d p, opener_ok root o -> hex_ok d p = true ->
+  confined root staging (stage_from_root root staging o src rnd d p).
+Proof. intros. eapply cpost_confined. apply stage_from_root_ok; assumption. Qed.
+
+Lemma new_opener_ok : opener_ok root new_opener.
+Proof. constructor. Qed.
+End Summary.
+
+(* Non-vacuity on a concrete tree: root/l is a link to ../canary. The real
+   programs, run in the world of that tree: opening l/secret fails, d/f
+   succeeds; the walk for a transition below l fails, below d succeeds; a scan
+   issues only confined primitives and never names anything below l. *)
+Example programs_on_a_tree :
+  let top := NDir [("canary", NDir [("secret", NFile)]);
+                   ("root", NDir [("l", NLink false [".."; "canary"]);
+                                  ("d", NDir [("f", NFile)])])] in
+  let w := tree_world "/x/root" top in
+  root_base "/x/root" = "root"
+  /\ root_parent_path "/x/root" = "/x/"
+  /\ snd (exec w (opener_open_file "/x/root" new_opener "l/secret")) = ErrR
+  /\ snd (exec w (opener_open_file "/x/root" new_opener "d/f")) = OkR tt
+  /\ exec w (walk_to_parent "/x/root" "l/new" false) = ErrR
+  /\ exec w (walk_to_parent "/x/root" "d/new" false) = OkR (HChild HRoot "d", "new")
+  /\ forallb (fun pa => prim_ok "/x/root" "/x/staging" (fst pa))
+             (fst (run (fun _ => w) 0 (scan "/x/root" 5))) = true
+  /\ map fst (fst (run (fun _ => w) 0 (scan "/x/root" 5))) =
+     [PAbsOpen "/x/root" false; PChoice "root-is-directory";
+      PListDir HRoot; PStatAt HRoot "l"; PStatAt HRoot "d";
+      PChoice "ignored-or-invalid-name"; PReadlinkAt HRoot "l";
+      PChoice "ignored-or-invalid-name"; PChoice "same-device";
+      POpenAt HRoot "d" true; PListDir (HChild HRoot "d");
+      PStatAt (HChild HRoot "d") "f"; PChoice "ignored-or-invalid-name";
+      PChoice "digest-cached"; POpenAt (HChild HRoot "d") "f" false].
+Proof. vm_compute. repeat split; reflexivity. Qed.
